@@ -42,7 +42,7 @@ SPECIFICATION Spec
 INVARIANT RenameInvisible
 INVARIANT SemanticVisible
 INVARIANT BaseWellFormed
-INVARIANT RepIsProgramIndependent
+INVARIANT VerdictStable
 INVARIANT Dump
 """
 
@@ -85,19 +85,39 @@ def run_jobs(ctx, jobs, par=4):
             raise MachineryError(f"Signature[{j.tag}]: {j.res.distinct} states but {len(j.res.prints)} dump lines")
 
 
-def neighbourhoods(job):
-    """Group the dump lines [b, lvl, kind, program, rep, stripped rep] of one run by base program."""
+_RE_B = None
+
+
+def raw_neighbourhoods(job):
+    """Group the raw dump lines of one run by base program number (parsed later, in the workers)."""
+    import re
+
+    global _RE_B
+    if _RE_B is None:
+        _RE_B = re.compile(r'^"\[(\d+),')
     groups = {}
     for s in job.res.prints:
+        m = _RE_B.match(s)
+        if not m:
+            raise MachineryError(f"Signature[{job.tag}]: unexpected dump line {s[:60]!r}")
+        groups.setdefault(int(m.group(1)), []).append(s)
+    return [groups[b] for b in sorted(groups)]
+
+
+def parse_group(raw, tag=""):
+    """Dump lines [b, lvl, kind, program, rep, stripped rep] of one base program -> members, base first."""
+    g = []
+    for s in raw:
         b, lvl, kind, prog, rep, srep = json.loads(json.loads(s))
-        groups.setdefault(b, []).append((lvl, kind, prog, rep, srep))
-    out = []
-    for b in sorted(groups):
-        g = sorted(groups[b], key=lambda e: (e[0] != 0, e[0], e[1], json.dumps(e[2])))
-        if g[0][0] != 0 or (len(g) > 1 and g[1][0] == 0):
-            raise MachineryError(f"Signature[{job.tag}]: base {b} has no unique level-0 state")
-        out.append(g)
-    return out
+        g.append((lvl, kind, prog, rep, srep))
+    g.sort(key=lambda e: (e[0] != 0, e[0], e[1], json.dumps(e[2])))
+    if g[0][0] != 0 or (len(g) > 1 and g[1][0] == 0):
+        raise MachineryError(f"Signature[{tag}]: a neighbourhood has no unique level-0 state")
+    return g
+
+
+def neighbourhoods(job):
+    return [parse_group(r, job.tag) for r in raw_neighbourhoods(job)]
 
 
 # --------------------------------------------------------------------------------------------
@@ -491,53 +511,77 @@ def check_group(group, salt0, sigfn=signatures, corrupt=None):
 
     if bijective(ok, sigs, keys) and all(bijective(v, esigs, keys) for v in by_meas.values()):
         return stats, bad  # both partitions coincide everywhere: nothing to report
-    for x, i in enumerate(ok):
-        for j in ok[x + 1 :]:
-            same_sig = sigs[i] == sigs[j]
-            same_key = keys[i] == keys[j]
-            verdicts = [("form", same_sig)]
-            if meas[i] == meas[j]:
-                # same measures: the integrands alone must tell the programs apart
-                verdicts.append(("expression", esigs[i] == esigs[j]))
-            for which, same in verdicts:
-                if same == same_key:
-                    continue
-                ki, kj = group[i][1], group[j][1]
-                if same and not same_key:
-                    # two meanings, one signature.  Attribute to the member(s) colliding with the base.
-                    if which == "expression" and same_sig:
-                        continue  # already reported for the form signature
-                    bfo = bfo_only_difference(group[i][3], group[j][3])
-                    if not bfo and skeys[i] is not None and skeys[i] == skeys[j]:
-                        # equal once ExternalOperator / Interpolate data is removed from both
-                        bfo = "bfo-data"
-                    if i == 0:
-                        label = bfo or norm_label(refine(mut_kind(kj), base, group[j][2]))
-                    elif sigs[i] == sigs[0] and keys[i] != keys[0] or sigs[j] == sigs[0] and keys[j] != keys[0]:
-                        continue  # consequence of a collision with the base that is reported on its own
-                    elif bfo:
-                        label = bfo  # the two neighbours differ only in base-form-operator data
-                    else:
-                        label = "cross:" + "|".join(sorted({mut_kind(ki), mut_kind(kj)}))
-                    fp = f"C11:collision:{label}" + ("" if which == "form" else ":expression-signature")
-                    what = f"different meaning, same {which} signature: base vs [{':'.join(kj)}]" if i == 0 else f"different meaning, same {which} signature: [{':'.join(ki)}] vs [{':'.join(kj)}]"
-                else:
-                    # one meaning, two signatures
-                    if which == "expression" and not same_sig:
-                        continue  # already reported for the form signature
-                    if i == 0:
-                        label = ":".join(kj) if not mut_kind(kj) else ren_kind(kj) or ":".join(kj)
-                    else:
-                        if sigs[i] != sigs[0] and keys[i] == keys[0] or sigs[j] != sigs[0] and keys[j] == keys[0]:
-                            continue
-                        label = ren_kind(kj) if mut_kind(ki) == mut_kind(kj) and ren_kind(kj) and not ren_kind(ki) else "cross:" + "|".join(sorted({":".join(ki), ":".join(kj)}))
-                    fp = f"C11:unstable:{label}" + ("" if which == "form" else ":expression-signature")
-                    what = f"same meaning (modulo ignorable numbering), two {which} signatures: [{':'.join(ki) or 'base'}] vs [{':'.join(kj)}]"
-                if (fp, i if i else j) in reported:
-                    continue
-                reported.add((fp, i if i else j))
-                bad.append(_mm(fp, what, group[i][2], group[j][2], same_key, (salt0 + i, salt0 + j), [ki, kj]))
+    # candidate pairs: members sharing a signature (form or expression) or a canonical class
+    cand = set()
+    for idx, left in [(ok, sigs)] + [(v, esigs) for v in by_meas.values()]:
+        for col in (left, keys):
+            cls = {}
+            for i in idx:
+                cls.setdefault(col[i], []).append(i)
+            for members in cls.values():
+                if len(members) > 1:
+                    cand.update((a, b) for x, a in enumerate(members) for b in members[x + 1 :])
+    per_fp = {}
+    for i, j in sorted(cand):
+        same_sig = sigs[i] == sigs[j]
+        same_key = keys[i] == keys[j]
+        verdicts = [("form", same_sig)]
+        if meas[i] == meas[j]:
+            # same measures: the integrands alone must tell the programs apart
+            verdicts.append(("expression", esigs[i] == esigs[j]))
+        for which, same in verdicts:
+            if same == same_key:
+                continue
+            j_ = _judge(group, i, j, which, same_sig, same_key, sigs, keys, skeys)
+            if j_ is None:
+                continue
+            fp, what = j_
+            if (fp, i if i else j) in reported:
+                continue
+            reported.add((fp, i if i else j))
+            per_fp[fp] = per_fp.get(fp, 0) + 1
+            if per_fp[fp] <= 3:
+                bad.append(_mm(fp, what, group[i][2], group[j][2], same_key, (salt0 + i, salt0 + j), [group[i][1], group[j][1]]))
+            else:
+                bad.append({"fingerprint": fp, "count_only": True})
     return stats, bad
+
+
+def _judge(group, i, j, which, same_sig, same_key, sigs, keys, skeys):
+    """Fingerprint and description of a mismatching pair (i < j), or None when the pair is a mere
+    consequence of a mismatch with the base program that is reported on its own."""
+    ki, kj = group[i][1], group[j][1]
+    base = group[0][2]
+    suffix = "" if which == "form" else ":expression-signature"
+    if not same_key:
+        # two meanings, one signature
+        if which == "expression" and same_sig:
+            return None  # already reported for the form signature
+        bfo = bfo_only_difference(group[i][3], group[j][3])
+        if not bfo and skeys[i] is not None and skeys[i] == skeys[j]:
+            bfo = "bfo-data"  # equal once ExternalOperator / Interpolate data is removed from both
+        if i == 0:
+            label = bfo or norm_label(refine(mut_kind(kj) or ":".join(kj), base, group[j][2]))
+            what = f"different meaning, same {which} signature: base vs [{':'.join(kj)}]"
+        else:
+            if (sigs[i] == sigs[0] and keys[i] != keys[0]) or (sigs[j] == sigs[0] and keys[j] != keys[0]):
+                return None
+            label = bfo or "cross:" + "|".join(sorted({mut_kind(ki), mut_kind(kj)}))
+            what = f"different meaning, same {which} signature: [{':'.join(ki)}] vs [{':'.join(kj)}]"
+        return f"C11:collision:{label}{suffix}", what
+    # one meaning, two signatures
+    if which == "expression" and not same_sig:
+        return None
+    if i == 0:
+        label = ren_kind(kj) or ":".join(kj)
+    else:
+        if (sigs[i] != sigs[0] and keys[i] == keys[0]) or (sigs[j] != sigs[0] and keys[j] == keys[0]):
+            return None
+        if mut_kind(ki) == mut_kind(kj) and ren_kind(kj) and not ren_kind(ki):
+            label = ren_kind(kj)
+        else:
+            label = "cross:" + "|".join(sorted({":".join(ki), ":".join(kj)}))
+    return f"C11:unstable:{label}{suffix}", f"same meaning (modulo ignorable numbering), two {which} signatures: [{':'.join(ki) or 'base'}] vs [{':'.join(kj)}]"
 
 
 def _mm(fp, what, a, b, expect_equal, salts, kinds):
@@ -572,6 +616,8 @@ def _work(task):
     tot = {"built": 0, "pairs": 0, "xpairs": 0, "expr_pairs": 0, "build_errors": 0}
     bad, distinct, kinds = [], [], {}
     for g in groups:
+        if isinstance(g[0], str):
+            g = parse_group(g, tag)
         st, b = check_group(g, salt)
         salt += len(g) + 11
         for k in tot:
@@ -617,7 +663,7 @@ def report(ctx, m):
     fp = m["fingerprint"]
     _REPORTED[fp] = _REPORTED.get(fp, 0) + 1
     ctx.count("failing_pairs:" + fp)
-    if _REPORTED[fp] > 2:
+    if _REPORTED[fp] > 2 or m.get("count_only"):
         return  # one defect class fails on many programs: two replay files per fingerprint
     ctx.violation(fp, m["what"] + " -- " + describe(m["replay"]), m["replay"])
 
@@ -798,6 +844,15 @@ def _x_index_tie(e, variant):
     return A[i, j] * ((u[i] * u[j]) if variant == "a" else (u[j] * u[i])) * ufl.dx
 
 
+def _x_index_order_reversed(e, variant):
+    # A[i,j]*B[j,i] with the counts of i and j exchanged: not an order preserving renaming
+    ufl, A, i, j = e["ufl"], e["A"], e["i"], e["j"]
+    B = ufl.Coefficient(e["T"], count=e["base"] + 5)
+    if variant == "b":
+        i, j = j, i
+    return A[i, j] * B[j, i] * ufl.dx
+
+
 def _x_constant_digits(e, variant):
     # two constants whose counts straddle a digit boundary: ordered by repr string (C12)
     ufl = e["ufl"]
@@ -853,6 +908,7 @@ def extras():
         ("subdomain-data-none-vs-object", _x_subdomain_data_none, "unjudged", "subdomain-data-none"),
         ("function-space-label", _x_space_label, "unjudged", "function-space-label"),
         ("product-order-decided-by-free-index-names-only", _x_index_tie, "unjudged", "commutative-order-index-tie"),
+        ("index-counts-in-reversed-order(C12)", _x_index_order_reversed, "unjudged", "index-count-order-reversed"),
         ("constant-counts-across-digit-boundary(C12)", _x_constant_digits, "unjudged", "constant-count-digit-boundary"),
         ("mesh-ids-permuted(C12)", _x_mesh_id_permuted, "unjudged", "mesh-id-permutation"),
     ]
@@ -1049,24 +1105,24 @@ def run(ctx, args):
     t0 = time.time()
     try:
         if quick:
-            jobs = [Job(u, 1, u in ("index", "cond", "deriv", "bfo", "md")) for u in UNIVERSES]
+            jobs = [Job(u, 1, u in ("index", "bfo", "md")) for u in UNIVERSES]
         else:
             jobs = [Job(u, 2, True) for u in UNIVERSES]
-            seeds = random_programs(ctx.seed, 240)
-            jobs += [Job("seeds", 2, True, seeds=seeds[i : i + 60], tag=f"seeds{i // 60}") for i in range(0, len(seeds), 60)]
+            seeds = random_programs(ctx.seed, 32)
+            jobs += [Job("seeds", 2, True, seeds=seeds[i : i + 8], tag=f"seeds{i // 8}") for i in range(0, len(seeds), 8)]
             order = ["alg", "measure", "seeds"]
             jobs.sort(key=lambda j: order.index(j.univ) if j.univ in order else 9)
         run_jobs(ctx, jobs)
         print(f"  TLC: {len(jobs)} runs, {sum(j.res.distinct for j in jobs)} states, model invariants hold, {time.time() - t0:.1f}s", flush=True)
         kinds = {}
         for j in jobs:
-            groups = neighbourhoods(j)
+            groups = raw_neighbourhoods(j)
             if j.seeds is not None and len(groups) != len(j.seeds):
                 raise MachineryError(f"Signature[{j.tag}]: {len(j.seeds)} seed programs but {len(groups)} base states (a seed is not well-formed)")
             ks = replay_groups(ctx, j.tag, groups, ctx.seed + len(groups))
             for k, v in ks.items():
                 kinds[k] = kinds.get(k, 0) + v
-            mid = groups[len(groups) // 2]
+            mid = parse_group(groups[len(groups) // 2], j.tag)
             if len(mid) > 1:
                 ctx.sample({"universe": j.tag, "base": fmt_prog(mid[0][2]), "neighbour": fmt_prog(mid[len(mid) // 2][2]), "kind": mid[len(mid) // 2][1], "same canonical class": json.dumps(mid[0][3]) == json.dumps(mid[len(mid) // 2][3])})
             j.res.stdout, j.res.prints = "", []
@@ -1122,7 +1178,7 @@ def replay(ctx, doc):
 
 def selftest(ctx):
     """Corrupted predictions and in-process mutants of the real signature code must be rejected."""
-    jobs = [Job("deriv", 1, False), Job("md", 1, False), Job("measure", 1, False)]
+    jobs = [Job("deriv", 1, False), Job("md", 1, False), Job("measure", 1, False), Job("cond", 1, False)]
     run_jobs(ctx, jobs)
     groups = {j.univ: neighbourhoods(j) for j in jobs}
     allg = [g for u in groups for g in groups[u]]
@@ -1195,7 +1251,7 @@ def selftest(ctx):
         lambda: setattr(sigmod, "canonicalize_metadata", lambda m: tuple(sorted((k, str(v)) for k, v in (m or {}).items()))),
         lambda: setattr(sigmod, "canonicalize_metadata", orig_canon),
         groups["md"],
-        ["C11:collision:md-array"],
+        ["C11:collision:md-array", "C11:collision:cross:md-array"],
     )
     mutant(
         "metadata-ignored",
@@ -1230,8 +1286,8 @@ def selftest(ctx):
         "int-literal-signature-constant",
         lambda: setattr(IntValue, "_ufl_signature_data_", lambda self, r: "IntValue"),
         lambda: setattr(IntValue, "_ufl_signature_data_", orig_int),
-        groups["deriv"] + groups["md"][:1],
-        ["C11:collision"],
+        groups["cond"],
+        ["C11:collision:literal-int"],
     )
     ctx.traces(sum(len(g) for g in allg))
     ctx.evaluated(len(rejected))
